@@ -226,3 +226,85 @@ pub fn cases_docs(a: &Args) {
     let n = o.finish();
     println!("{}", json!({"kind": "docs", "docs": n}));
 }
+
+fn step_json(s: &xml_schema_generator::verif::Step) -> Value {
+    use xml_schema_generator::verif::Step;
+    match s {
+        Step::Snap { name, counts, check } => json!({"ev": "Snap", "name": name, "check": check,
+            "counts": counts.iter().map(|(n, c)| json!([n, c])).collect::<Vec<_>>()}),
+        Step::Enter { name, attrs, empty, existed, child } => json!({"ev": "Enter", "name": name, "attrs": attrs, "empty": empty,
+            "existed": existed, "child": view_json(child)}),
+        Step::Event { kind, elem } => json!({"ev": "Event", "kind": kind,
+            "elem": elem.as_ref().map(view_json).unwrap_or(json!({"none": true}))}),
+        Step::Closed { parent } => json!({"ev": "Closed", "parent": view_json(parent)}),
+    }
+}
+
+/// one session with the hooks recording: Reset, then Begin / hook steps / Return per document
+fn record_session(o: &mut Out, docs: &[Vec<u8>]) -> usize {
+    o.line(&json!({"ev": "Reset"}));
+    let mut sess = Session::new();
+    let mut calls = 0;
+    for bytes in docs {
+        let cfg = ReaderCfg::default_cfg();
+        let before = sess.tree.as_ref().map(|t| view_json(&t.verif_view()));
+        let op = if before.is_some() { "extend" } else { "parse" };
+        o.line(&json!({"ev": "Begin", "op": op, "tree": before.unwrap_or(json!({"none": true})), "doc": String::from_utf8_lossy(bytes), "hex": hex(bytes)}));
+        let (out, steps) = sess.feed_recorded(bytes, &cfg, 0);
+        for s in &steps {
+            o.line(&step_json(s));
+        }
+        match &out {
+            Outcome::Ok(v) => o.line(&json!({"ev": "Return", "ok": true, "tree": view_json(v), "kind": ""})),
+            Outcome::Err { kind, .. } => o.line(&json!({"ev": "Return", "ok": false, "tree": {"none": true}, "kind": kind})),
+            Outcome::Panic => o.line(&json!({"ev": "Panic"})),
+        }
+        calls += 1;
+    }
+    calls
+}
+
+/// impl -> spec, mechanism level: sessions recorded through the parser hooks for ParserTrace
+pub fn record_parser(a: &Args) {
+    use crate::gen::*;
+    let mut r = Rng::new(a.num("seed", 1));
+    let sessions = a.num("n", 100) as usize;
+    let max_elems = a.num("elems", 25) as usize;
+    let damage_pct = a.num("damage", 6) as usize;
+    let mut o = Out::create(&a.req("out"));
+    let mut calls = 0usize;
+    // first the documents given explicitly (the repository's own test documents), one session each
+    if let Some(p) = a.get("docs") {
+        for d in read_lines(&p) {
+            let docs: Vec<Vec<u8>> = d["docs"].as_array().map(|x| x.iter().map(|s| s.as_str().unwrap_or("").as_bytes().to_vec()).collect()).unwrap_or_default();
+            calls += record_session(&mut o, &docs);
+        }
+    }
+    for s in 0..sessions {
+        let mut g = if s % 3 == 0 { GenCfg::rich() } else { GenCfg::plain() };
+        g.pretty = s % 5 == 1;
+        g.max_depth = 2 + r.below(4);
+        g.max_kids = 1 + r.below(5);
+        let k = 2 + r.below(4);
+        let mut pool = g.names.clone();
+        r.shuffle(&mut pool);
+        pool.truncate(k);
+        g.names = pool;
+        let root = r.pick(&g.names).clone();
+        let ndocs = 1 + r.below(4);
+        let mut docs = Vec::new();
+        for _ in 0..ndocs {
+            let mut bytes = if r.chance(1, 20) { elementless(&mut r) } else {
+                let budget = 1 + r.below(max_elems);
+                document(&mut r, &g, &root, budget)
+            };
+            if r.chance(damage_pct, 100) {
+                bytes = damage(&mut r, &bytes);
+            }
+            docs.push(bytes);
+        }
+        calls += record_session(&mut o, &docs);
+    }
+    let lines = o.finish();
+    println!("{}", json!({"kind": "parser-trace", "events": lines, "calls": calls}));
+}
